@@ -397,6 +397,30 @@ fn path_case(ctx: &mut Ctx, r: &mut Rng, long: bool, for_sim: bool) -> Option<Bu
     let got: Vec<(f64, f64, f64)> = t.cat_power_limits().iter().map(|c| (c.offset_start.value, c.offset_end.value, c.power_limit.value)).collect();
     if got != cats { ctx.fail("C06", "catenary_shifted", "path", "catenary limits are not the links' sections shifted by the link base offsets".into(), input.clone()); }
     ctx.sample("train.path", json!({"n_links": route.len(), "lengths": route.iter().map(|l| net[l.idx()].length.value).collect::<Vec<_>>(), "n_grades": t.grades().len(), "n_curves": t.curves().len()}));
+    // C03, statically: the speed profile handed to the controller never exceeds what the NETWORK posts for this train
+    // (sets conditional on mass / mass per brake / axle count gated independently), at every point where either changes.
+    // The speed-limited runs below re-check it along the trajectory; this covers every built path, not only the few simulated ones.
+    {
+        let posted_list = crate::b_sp::posted_from_network(&net, &route, &tp);
+        let total: f64 = route.iter().map(|l| net[l.idx()].length.value).sum();
+        let mut xs: Vec<f64> = vec![0.0];
+        for l in &posted_list { xs.push(l.offset_start.value); xs.push(0.5 * (l.offset_start.value + l.offset_end.value)); }
+        for sp in t.speed_points() { if sp.offset.value.is_finite() { xs.push(sp.offset.value); } }
+        let n_cond = route.iter().filter(|l| net[l.idx()].speed_set.as_ref().map(|s| !s.speed_params.is_empty()).unwrap_or(false)
+            || net[l.idx()].speed_sets.values().any(|s| !s.speed_params.is_empty())).count();
+        if n_cond > 0 { ctx.count("train.path.with_conditional_speed_set"); }
+        let mut bad = None;
+        for x in xs {
+            if !(x >= 0.0 && x < total) { continue; }
+            let posted = crate::b_sp::tightest_at(&posted_list, tp.speed_max.value, x);
+            let prof = crate::b_sp::val_at(t.speed_points(), x).abs();
+            if prof > posted { bad = Some((x, prof, posted)); break; }
+        }
+        ctx.checked("C03", "profile_le_posted");
+        if let Some((x, prof, posted)) = bad {
+            ctx.fail("C03", "profile_le_posted", "path", format!("speed profile of the path is {} but the network posts {} at {}", prof, posted, x), input.clone());
+        }
+    }
     Some(Built { net, route, tp, tpc: t })
 }
 
@@ -1204,6 +1228,24 @@ fn timed_path_case(ctx: &mut Ctx, r: &mut Rng) {
         let (po, ps) = (h.offset[i - 1].value, h.speed[i - 1].value);
         let (s_lim, s_tgt, s_spd) = (h.speed_limit[i].value, h.speed_target[i].value, h.speed[i].value);
         let id = format!("row{}", i);
+        // C12 on the rows the real walk_timed_path saved (every step is saved): the bookkeeping clauses hold between
+        // consecutive rows whatever the walk was doing — running, braking, or standing and waiting for its next hand-out
+        {
+            let dt_i = h.dt[i].value;
+            let c12 = |ctx: &mut Ctx, clause: &str, ok: bool, d: String| {
+                ctx.checked("C12", clause);
+                if !ok { ctx.fail("C12", clause, &id, d, input.clone()); }
+            };
+            let consecutive = h.i[i] == h.i[i - 1] + 1;
+            if consecutive {
+                c12(ctx, "time_advances_by_dt", close(h.time[i].value - h.time[i - 1].value, dt_i, 1.0),
+                    format!("walk_timed_path row {}: time went from {} s to {} s but the step size is {} s", i, h.time[i - 1].value, h.time[i].value, dt_i));
+                c12(ctx, "distance_sums_abs_moves", close(h.total_dist[i].value - h.total_dist[i - 1].value, (h.offset[i].value - h.offset[i - 1].value).abs(), 1000.0),
+                    format!("walk_timed_path row {}: total_dist {} -> {} but the front moved {} -> {}", i, h.total_dist[i - 1].value, h.total_dist[i].value, h.offset[i - 1].value, h.offset[i].value));
+            }
+            c12(ctx, "rear_is_front_minus_length", h.offset_back[i].value == h.offset[i].value - h.length[i].value,
+                format!("walk_timed_path row {}: offset_back {} != offset {} - length {}", i, h.offset_back[i].value, h.offset[i].value, h.length[i].value));
+        }
         let mut chk = |clause: &str, ok: bool, d: String| {
             ctx.checked("C03", clause);
             if !ok { ctx.fail("C03", clause, &id, d, input.clone()); }
